@@ -56,3 +56,29 @@ for id in $PID $EXTRA; do
 done
 echo "SEEDED $NAME property=$PID demo_on_clean=$DEMO_CLEAN demo_with_change=$DEMO_MUT baseline_rc=$BASE_RC checks=[$RES ]"
 echo "SEEDED $NAME property=$PID demo_on_clean=$DEMO_CLEAN demo_with_change=$DEMO_MUT baseline_rc=$BASE_RC checks=[$RES ]" >> $LOG
+# meta.json: which property, what it needs to manifest (from $SRC/needs.txt), what was run
+python3 - "$NAME" "$PID" "$SRC" "$FILTER" "$CRATE" "$DEMO_CLEAN" "$DEMO_MUT" "$BASE_RC" "$RES" <<'PY'
+import json, sys, os
+name, pid, src, flt, crate, dclean, dmut, base_rc, res = sys.argv[1:10]
+needs = open(os.path.join(src, 'needs.txt')).read().strip() if os.path.exists(os.path.join(src, 'needs.txt')) else ''
+checks = []
+for tok in res.split():
+    cid, ex, sig = tok.split(':', 2)
+    checks.append({"check": cid, "exit": int(ex.split('=')[1]), "first_signature": None if sig == 'none' else sig})
+meta = {
+  "name": name, "property": pid,
+  "needs_to_manifest": needs,
+  "repo_head": os.popen('git -C /repo rev-parse --short HEAD').read().strip(),
+  "ran": [
+    f"scratch worktree /tmp/mut/repo at /repo HEAD; git apply demo.diff; cargo test -p {crate} --offline {flt}  -> {dclean}",
+    f"git apply patch.diff; same cargo test -> {dmut}",
+    f"patch only: /verif/baseline.sh /tmp/mut/repo (the pinned 282-test suite, guard off) -> exit {base_rc}",
+  ] + [f"/verif/tools/mutant.sh patch.diff {c['check']} quick -> exit {c['exit']}" + (f" first signature {c['first_signature']}" if c['first_signature'] else "") for c in checks],
+  "demo_passes_on_unchanged_tree": dclean == 'pass',
+  "demo_fails_with_change": dmut == 'fails',
+  "existing_suite_passes_with_change": base_rc == '0',
+  "checks": checks,
+  "caught_by": [c['check'] for c in checks if c['exit'] == 1],
+}
+json.dump(meta, open(f'/verif/seeded/{name}/meta.json', 'w'), indent=1)
+PY
